@@ -236,6 +236,11 @@ func sensitivity(names []string) int {
 		if expect == "equivalent" && code == 0 {
 			verdict = "equivalent(ok)"
 		}
+		if expect == "thorough-only" && code == 0 {
+			// documented as out of reach of the quick check (meta.json says which part of the
+			// thorough check finds it)
+			verdict = "thorough-only(ok)"
+		}
 		if expect == "pass" {
 			switch code {
 			case 0:
@@ -276,10 +281,14 @@ func patchMeta(patch, name string) (prop, expect, base string) {
 				}
 			}
 			var m struct {
-				Base string `json:"base"`
+				Base  string `json:"base"`
+				Quick string `json:"quick_expected"`
 			}
 			if json.Unmarshal(b, &m) == nil {
 				base = m.Base
+				if m.Quick == "missed" {
+					return prop, "thorough-only", base
+				}
 			}
 		}
 		return prop, "", base
